@@ -27,6 +27,15 @@ Section C07.
     from_snapshot mac deser_hdr dec_map (d_snap d) k v.
   Proof. exact (recover_no_invention deser mac val_ok dec_changes deser_hdr dec_map). Qed.
 
+  (* Under the MAC idealisation (a tag verifies only for records this store wrote under
+     its key - an assumption about HMAC-SHA256, stated here, not proved): a value that
+     comes from a log record comes from a record this store genuinely wrote for that key. *)
+  Theorem C07_genuinely_written : forall (Written : entry -> Prop) files k v,
+    (forall e, verify mac e = true -> Written e) ->
+    from_record deser mac val_ok dec_changes files k v ->
+    exists e cs, Written e /\ entry_changes val_ok dec_changes e = Some cs /\ In (k, Some v) cs.
+  Proof. exact (from_record_written deser mac val_ok dec_changes). Qed.
+
   (* The tag input determines every field (after the fix that length-prefixes key and
      value): a tag that verifies for one (id, time, type, key, value) cannot be
      presented with another key or value - nothing is "moved to another key". *)
